@@ -79,6 +79,39 @@ static inline float vf_bits_float(uint32_t b) { float d; memcpy(&d, &b, 4); retu
 #define VF_CBMC_ONLY(x)
 #endif
 
+/* double division: bit-precise by default; a group may abstract it as an uninterpreted function
+ * (sound over-approximation: whatever is proved holds for IEEE division too; used where the
+ * proof only needs congruence a == b ==> 1/a == 1/b and SAT cannot decide two 53-bit dividers) */
+#if defined(VF_CBMC) && defined(VF_UF_FDIV)
+double __CPROVER_uninterpreted_fdiv(double, double);
+/* IEEE division is sign(a) xor sign(b) applied to |a| / |b| (exactly, for every operand pair that
+ * does not give NaN); only the quotient of the magnitudes is abstracted */
+static inline double vf_fdiv(double a, double b) {
+    union { double d; uint64_t u; } pa, pb, pq;
+    pa.d = a; pb.d = b;
+    bool neg = ((pa.u ^ pb.u) >> 63) != 0;
+    pa.u &= 0x7FFFFFFFFFFFFFFFUL; pb.u &= 0x7FFFFFFFFFFFFFFFUL;
+    const uint64_t INF = 0x7FF0000000000000UL;
+    if (pa.u > INF || pb.u > INF) pq.u = 0x7FF8000000000000UL;             /* NaN operand */
+    else if (pa.u == INF) pq.u = (pb.u == INF) ? 0x7FF8000000000000UL : INF; /* inf/inf, inf/x */
+    else if (pb.u == INF) pq.u = 0;                                          /* x/inf */
+    else if (pb.u == 0) pq.u = (pa.u == 0) ? 0x7FF8000000000000UL : INF;     /* 0/0, x/0 */
+    else if (pa.u == 0) pq.u = 0;                                            /* 0/x */
+    else {
+        /* finite non-zero magnitudes: the quotient is abstract, but never negative, never NaN, and a
+         * numerator >= 1 cannot underflow to zero (1/DBL_MAX is a positive subnormal) */
+        pq.d = __CPROVER_uninterpreted_fdiv(pa.d, pb.d);
+        pq.u &= 0x7FFFFFFFFFFFFFFFUL;
+        __CPROVER_assume(pq.u <= INF);
+        __CPROVER_assume(!(pa.d >= 1.0) || pq.u != 0);
+    }
+    return neg ? -pq.d : pq.d;
+}
+#define VF_FDIV(a, b) vf_fdiv((a), (b))
+#else
+#define VF_FDIV(a, b) ((a) / (b))
+#endif
+
 /* calling the function under contract: under CBMC the contract is enforced by --dfcc at this call;
  * natively the generated VF_PRE_/VF_SNAP_/VF_POST_ macros evaluate the same clauses.  The harness
  * must name its variables like the function's parameters. */
